@@ -19,7 +19,11 @@ ASSUMPTIONS = ["nmt_rs::NamespaceId derives its ordering from the inner byte arr
 def run(ctx):
     f = ctx.anchor(N + "from_raw")
     if f:
-        require_guard(ctx, f, Cmp(["len:a1"], ["const:celestia_types::nmt::NS_SIZE"], pass_op="Eq", name="bytes.len() == NS_SIZE"), "C14.from_raw.len")
+        from engine.rules import AnyOf
+        require_guard(ctx, f, AnyOf(Cmp(["len:a1"], ["const:celestia_types::nmt::NS_SIZE"], pass_op="Eq"),
+                                    # the same check made by converting the slice into a fixed [u8; NS_SIZE] array
+                                    Direct(["*TryInto*::try_into", "*TryFrom*::try_from"], ["a1"]),
+                                    name="bytes.len() == NS_SIZE"), "C14.from_raw.len")
         ex = [x for x in exit_sites(f) if x["kind"] in ("accept", "may")]
         ctx.check(bool(ex) and all(has_all(ctx.leaves(x["expr"]), ["call:" + N + "new", "a1"]) for x in ex), "C14.from_raw.delegates", f.path, "result comes from Namespace::new(version byte, id bytes)", key="C14.from_raw.delegates")
     n = ctx.anchor(N + "new")
@@ -43,7 +47,7 @@ def run(ctx):
     v0 = ctx.anchor(N + "new_v0")
     if v0:
         require_guard(ctx, v0, Has("len:a1", name="id length classified (28 / <=10 / reject)"), "C14.v0.len")
-        require_guard(ctx, v0, Has("call:*Iterator::any", "a1", name="non-zero prefix rejected"), "C14.v0.prefix")
+        require_guard(ctx, v0, Has(["call:*Iterator::any", "call:*Iterator::all"], "a1", name="non-zero prefix rejected"), "C14.v0.prefix")
         lits = set()
         for b in sorted(v0.reachable_from([0])):
             if v0.blocks[b]["t"]["k"] == "switch":
